@@ -19,6 +19,10 @@ HAND = [
     "function f(c) { var x = 1; while (c < 3) { c++; } if (x == 1) { return c; } return 2; }",
     "function f(c) { var x = 1; while (c < 3) { x = 1; c++; } if (x == 1) { return c; } return 2; }",
     "function f(c) { var x = 1; while (c < 3) { x = x + 1; c++; } if (x == 1) { return c; } return 2; }",
+    "function f(c) { var found = 0; for (var i = 0; i < 3; i++) { if (c == i) { found = 1; } } if (found == 0) { return 1; } return 2; }",
+    "function f(c) { var t = 0; for (var i = 0; i < 2; i++) { for (var j = 0; j < 2; j++) { t = t + c; } } if (t == 0) { return 1; } return 2; }",
+    "function f(c) { var t = 5; var i = 0; while (i < 2) { if (c) { if (i == 1) { t = 6; } } i++; } if (t == 5) { return 1; } return 2; }",
+    "function f(c) { var a = 1; var b = 1; while (c < 4) { if (c == 2) { a = b + 1; } else { b = a; } c++; } if (a == 1) { return 1; } return b; }",
     "function f(c) { if ((~0) == 0) { return 1; } return 2; }",
     "function f(c) { if ((1 << 300) == 0) { return 1; } return 2; }",
     "function f(c) { if ((5 % 0) == 0) { return 1; } return 2; }",
@@ -174,7 +178,19 @@ def run(ctx):
                     # signal assigned twice / read before assignment): its prefix carries no obligation
                     stats["invalid executions discarded"] += 1
                     continue
-                for key, vals in it.node_values.items():
+                # the same valuation on the CFG *before* SSA conversion (unversioned variables, no phi): an oracle that does
+                # not depend on the SSA construction, so a wrong phi placement / stale version shows up as a false claim
+                merged = {k: (set(v), "SSA CFG") for k, v in it.node_values.items()}
+                if "cfg" in o:
+                    it0, abort0 = interp.run(o["cfg"], p, inputs, max_steps=400)
+                    stats["pre-SSA interpreter runs"] += 1
+                    if not (abort0 is not None and abort0.startswith("invalid")):
+                        for k0, v0 in it0.node_values.items():
+                            if k0 in merged:
+                                merged[k0] = (merged[k0][0] | set(v0), "SSA CFG / pre-SSA CFG")
+                            else:
+                                merged[k0] = (set(v0), "pre-SSA CFG")
+                for key, (vals, origin) in merged.items():
                     if key in cl:
                         claim, node = cl[key]
                         for v in vals:
@@ -185,7 +201,7 @@ def run(ctx):
                                 known = bool(incomplete) and (mentions(node) or node[0] == "phi")
                                 sig = "false-constant" + (" PhiComplete" if known else "")
                                 l1 += 0 if known else 1
-                                ctx.violation(sig, {"stage": "L1 reference interpreter", "source": src, "curve": curve, "inputs": {str(a): str(b) for a, b in cache.items()},
+                                ctx.violation(sig, {"stage": "L1 reference interpreter (%s)" % origin, "source": src, "curve": curve, "inputs": {str(a): str(b) for a, b in cache.items()},
                                                     "node": [key[0], key[1], key[2]], "claimed": claim, "observed": str(v),
                                                     "hypothesis_PhiComplete": not incomplete, "incomplete_phis": incomplete,
                                                     "broken": l2_bad["broken"] if l2_bad else None})
